@@ -372,7 +372,8 @@ void RangeToken::addRange(const XMLInt32 start, const XMLInt32 end) {
 
         if(fSorted && fRanges[fElemCount-1] >= val1)
         {
-            for (int i = 0; i < (int)fElemCount; i +=2)
+            int i;
+            for (i = 0; i < (int)fElemCount; i +=2)
             {
                 // check if this range is already part of this one
                 if (fRanges[i] <= val1 && fRanges[i+1] >= val2)
@@ -393,6 +394,13 @@ void RangeToken::addRange(const XMLInt32 start, const XMLInt32 end) {
                     fElemCount  += 2;
                     break;
                 }
+            }
+            // every existing range starts before the new one and none
+            // contains it: the new range goes to the end
+            if (i >= (int)fElemCount)
+            {
+                fRanges[fElemCount++] = val1;
+                fRanges[fElemCount++] = val2;
             }
         }
         else
